@@ -30,6 +30,8 @@ CLAIMED = {
          'accept set of the header parser at every Ok exit, panic freedom of the parser, the extension parser and the device constructor for every byte string / accepted header, bounded refcount-table allocation, progress of the extension walk, inflate status accept set; operations on devices with malformed L1/L2/refcount tables not decided', 'C14'),
  'C15': ('bit-provenance abstract interpretation of accessor and packing code against the specification bit tables; layout and configuration scans; field-use agreement of inverse key functions',
          'accessor bit fields, compressed descriptor split (13 cluster sizes), refcount get/set for 7 widths x 16 indices, byte-order symmetry, header layout and serialiser configuration, backing-name offset provenance; arithmetic results and round trips not decided', 'C15'),
+ 'C16': ('alignment abstract interpretation (multiples of 2^shift with symbolic block/slice/cluster shifts over the interval engine), modular assume/guarantee over the async call graph, buffer provenance',
+         'offset, length and buffer of every backend read/write/zero request, sizes of all table buffers and all recorded table offsets are block multiples on every path, from the validated public API down to the trait calls; assumes cluster >= slice >= block, cluster-aligned host offsets in a spec-valid image, an aligned caller buffer', 'C16'),
  'C17': ('error-value def-use discipline + restore/undo typestate in the fault model',
          'no dropped Qcow2Result; flags/queue entries restored on error exits; rollback and zero-write fallback on failing requests; state after retries not decided', 'C17'),
  'C08': ('guard provenance + no-suspension scan/increment rule, control/data dependence of the free-hint updates, path-sensitive run-restart pairing',
